@@ -40,10 +40,16 @@ def parse_races(text):
         sections = re.split(r"\n(?=(?:Previous )?(?:[Rr]ead|[Ww]rite|Atomic) )", block)
         tops = []
         for sec in sections:
-            fr = [REPO_FRAME.match(l) for l in sec.splitlines()]
-            fr = [f for f in fr if f]
-            if fr and re.match(r"\s*(Previous )?(read|write|atomic)", sec.strip(), re.I):
-                tops.append(fr[0].group(2).split("/")[-1].replace(".go", "") + ":" + fr[0].group(2).rsplit("/", 2)[-2])
+            if not re.match(r"\s*(Previous )?(read|write|atomic)", sec.strip(), re.I):
+                continue
+            fn = None
+            for l in sec.splitlines():
+                m = re.match(r"^\s+(\S+)\(\)$", l)
+                if m:
+                    fn = m.group(1).split("/")[-1]
+                if REPO_FRAME.match(l):
+                    tops.append(fn or REPO_FRAME.match(l).group(2))
+                    break
         sig = " <-> ".join(sorted(set(tops))[:2]) if tops else frames[0][0]
         out.append((sig, block.strip()[:3000]))
     return out
@@ -86,7 +92,30 @@ def check(prop, tier, seed):
                               "-workers", "40" if mode == "errpath" else "8", "-len", ln, "-mode", mode], stdout=subprocess.PIPE, stderr=subprocess.PIPE, text=True,
                              env=dict(os.environ, GORACE="halt_on_error=0"))
         jobs.append((p, out, sh, proto + ("/" + mode if mode else ""), True))
+    # the connection pool is process-wide state too: concurrent callers of the pooled handler, calm and
+    # with the backend connections cut again and again (recovery goroutine vs batcher vs reader)
+    pooljobs = []
+    for i, (mode, n, workers, ln) in enumerate([("calm", 200250, 8, 100), ("cuts", 100050, 16, 150)] if quick else
+                                               [("calm", 200250, 8, 400), ("cuts", 100050, 16, 400), ("cuts", 300250, 8, 400), ("cuts", 100000, 32, 300)]):
+        out = run.path("mcp%d.ndjson" % run._next())
+        sock = run.path("mcps%d" % run._next())
+        os.makedirs(sock)
+        p = subprocess.Popen([rexe, "pool-child", "-dir", sock, "-out", out, "-mode", mode, "-n", str(n), "-workers", str(workers), "-len", str(ln),
+                              "-seed", str(seed * 10 + i)], stdout=subprocess.PIPE, stderr=subprocess.PIPE, text=True, env=dict(os.environ, GORACE="halt_on_error=0"))
+        pooljobs.append((p, "pool/%s/n%d/callers%d (race build)" % (mode, n, workers)))
     stats = {}
+    for p, name in pooljobs:
+        try:
+            so, se = p.communicate(timeout=3000)
+        except subprocess.TimeoutExpired:
+            p.kill()
+            raise Infra("pool workload (race build) timed out: %s" % name)
+        found = parse_races(se + so)
+        rstats[name] = {"race_reports_with_repo_frames": len(found)}
+        for sig, rep in found:
+            races.setdefault(sig, (name, rep))
+        if p.returncode not in (0, 66):
+            run.driver_failed("pool workload (race build) failed: %s" % name, se)
     for p, out, sh, proto, israce in jobs:
         try:
             so, se = p.communicate(timeout=3000)
